@@ -241,6 +241,7 @@ func (ds *AnySource) Stop() error {
 	case Active:
 		log.Println("AnySource.Stop() was called to stop an active source")
 		// This is the normal case: Stop on an Active source
+		vheld("Stop.active", &ds.sourceStateLock)
 
 	case Stopping:
 		// Ignore Stop if source is already Stopping.
@@ -866,6 +867,7 @@ func (ds *AnySource) SetStateStarting() error {
 	ds.sourceStateLock.Lock()
 	defer ds.sourceStateLock.Unlock()
 	if ds.sourceState == Inactive {
+		vheld("Start.inactive", &ds.sourceStateLock)
 		ds.sourceState = Starting
 		return nil
 	}
